@@ -182,8 +182,10 @@ def compiled_with_own_config(ctx, rule):
         if prod:
             snap = getattr(ev[prod[0]], "config", {})
             flags = (snap.get("MnemonicsFullMatch"), snap.get("OperandsFullMatch"))
-            ctx.check(flags == ("True", "False"), rule, "MasterOfPuppets.__init__ (config in force when the regex is produced)",
-                      f"MnemonicsFullMatch={flags[0]} OperandsFullMatch={flags[1]} for a rule with mnemonics-full-match: true",
+            rule_cfg = s.cfg["config"]
+            want = (str(bool(rule_cfg.get("mnemonics-full-match", False))), str(bool(rule_cfg.get("operands-full-match", False))))
+            ctx.check(flags == want, rule, "MasterOfPuppets.__init__ (config in force when the regex is produced)",
+                      f"MnemonicsFullMatch={flags[0]} OperandsFullMatch={flags[1]} for a rule whose config section is {rule_cfg}"[:200],
                       "when the regex is produced the singleton holds the rule's own full-match flags")
     return n
 
